@@ -47,6 +47,7 @@ type propCfg struct {
 	FSPkgs       string
 	ExtPkgs      string
 	MapPkgs      string // packages whose map accesses are reported to the happens-before race tracker
+	Also         *propCfg // a second stage of the same property on another harness (run first, in a sub-process; merged into verdict and evidence)
 	QuickRuns    int
 	ThoroughRuns int
 	RunsPerProc  int
@@ -159,6 +160,12 @@ func init() {
 		Real: []string{"portbase/log (all of it, instrumented)", "tevino/abool"},
 		Stub: []string{"output adapter (recording, optionally slow)"},
 	}
+	// C06 has a second stage: the HTTP API request handler clause runs on the API harness
+	c6api := *props["C12"]
+	c6api.QuickRuns, c6api.ThoroughRuns, c6api.RunsPerProc = 2500, 80000, 200
+	c6api.QuickWall, c6api.ThoroughWall = 45*time.Second, 6*time.Minute
+	c6api.Rule = "second stage of C06 (API request handlers): the C12 request histories with every handler panicking, before or after it has started its response; oracle: the server survives, a handler that had not started its response is answered with 500, and exactly one panic error with the value and a stack trace arrives on the module error channel per panicking handler"
+	props["C06"].Also = &c6api
 }
 
 func env() []string {
@@ -412,6 +419,45 @@ func check(args []string) {
 	if pc == nil {
 		trouble("unknown property %q", id)
 	}
+	evName := id
+	var alsoOut string
+	alsoExit := 0
+	if os.Getenv("VERIF_STAGE") == "also" {
+		if pc.Also == nil {
+			trouble("property %s has no second stage", id)
+		}
+		pc = pc.Also
+		evName = id + ".also"
+	} else if pc.Also != nil {
+		// second stage first, in a process of its own
+		a := []string{"check", id, "--tier", tier}
+		if runsOverride > 0 {
+			a = append(a, "--runs", fmt.Sprint(runsOverride/4+1))
+		}
+		cmd := exec.Command(os.Args[0], a...)
+		cmd.Env = append(os.Environ(), "VERIF_STAGE=also")
+		cmd.Stderr = os.Stderr
+		ob, err := cmd.Output()
+		alsoOut = string(ob)
+		if err != nil {
+			if ee, ok := err.(*exec.ExitError); ok {
+				alsoExit = ee.ExitCode()
+			} else {
+				trouble("second stage: %v", err)
+			}
+		}
+		for _, l := range strings.Split(alsoOut, "\n") {
+			if strings.HasPrefix(l, "VIOLATION ") || strings.HasPrefix(l, "KNOWN-FINDING:") || strings.HasPrefix(l, "  class=") || strings.HasPrefix(l, "  detail=") {
+				fmt.Println(l)
+			} else if strings.HasPrefix(l, "verifctl: "+id+" runs=") {
+				fmt.Println(strings.Replace(l, "verifctl: "+id, "verifctl: "+id+" (stage "+pc.Also.Harness+")", 1))
+			}
+		}
+		if alsoExit != 0 && alsoExit != 1 {
+			fmt.Print(alsoOut)
+			trouble("second stage of %s ended with exit code %d", id, alsoExit)
+		}
+	}
 	seed := seedFromEnv()
 	start := time.Now()
 	fmt.Printf("verifctl: property=%s tier=%s VERIF_SEED=%d\n", id, tier, seed)
@@ -609,7 +655,7 @@ func check(args []string) {
 			}
 			continue
 		}
-		path := filepath.Join(verifDir, "replays", fmt.Sprintf("%s-%d-%d.json", id, final.Seed, final.Run))
+		path := filepath.Join(verifDir, "replays", fmt.Sprintf("%s-%d-%d.json", evName, final.Seed, final.Run))
 		b, _ := json.MarshalIndent(final, "", " ")
 		if err := os.WriteFile(path, b, 0o644); err != nil {
 			trouble("write replay: %v", err)
@@ -655,13 +701,28 @@ func check(args []string) {
 		},
 	}
 	_ = os.MkdirAll(filepath.Join(verifDir, "evidence"), 0o755)
+	if evName == id && pc.Also != nil {
+		// merge the second stage
+		sp := filepath.Join(verifDir, "evidence", id+".also.json")
+		if sb, err := os.ReadFile(sp); err == nil {
+			var sev map[string]any
+			if json.Unmarshal(sb, &sev) == nil {
+				cov := ev["coverage"].(map[string]any)
+				cov["second_stage"] = map[string]any{"harness": pc.Also.Harness, "coverage": sev["coverage"], "violations": sev["violations"], "wall_s": sev["wall_s"]}
+				if v, ok := sev["violations"].(float64); ok {
+					ev["violations"] = violations + int(v)
+				}
+			}
+			_ = os.Remove(sp)
+		}
+	}
 	eb, _ := json.MarshalIndent(ev, "", " ")
-	if err := os.WriteFile(filepath.Join(verifDir, "evidence", id+".json"), eb, 0o644); err != nil {
+	if err := os.WriteFile(filepath.Join(verifDir, "evidence", evName+".json"), eb, 0o644); err != nil {
 		trouble("write evidence: %v", err)
 	}
 	fmt.Printf("verifctl: %s runs=%d distinct_histories=%d distinct_schedules=%d steps=%d sim_time=%.0fs wall=%.1fs (build %.1fs) violations=%d known=%d\n",
 		id, agg.Runs, len(hist), len(sched), agg.Steps, agg.SimTimeS, wallS, buildS, violations, len(knownSeen))
-	if violations > 0 {
+	if violations > 0 || alsoExit == 1 {
 		os.RemoveAll(br.Scratch)
 		os.Exit(1)
 	}
@@ -785,6 +846,9 @@ func replayCmd(args []string) {
 	pc := props[f.Property]
 	if pc == nil {
 		trouble("unknown property %q", f.Property)
+	}
+	if f.Harness != "" && pc.Harness != f.Harness && pc.Also != nil && pc.Also.Harness == f.Harness {
+		pc = pc.Also
 	}
 	br := build(f.Property, pc)
 	defer os.RemoveAll(br.Scratch)
